@@ -3,8 +3,12 @@ package mon
 import (
 	"fmt"
 	"math/rand"
+	"os"
+	"path/filepath"
 	"sort"
 	"strings"
+	"verif/cli"
+	"verif/work"
 
 	"verif/gen"
 	"verif/probe"
@@ -28,7 +32,7 @@ func ownMethods(api *probe.API, runtime []string) []string {
 }
 
 func checkC17(c *Ctx) error {
-	c.Rule = "seeded configurations (the C01 generator incl. hostile alias tables and 1-4 input files; one third carry an injected defect: missing parameter/service, cycle, scope conflict, grammar or token error), each run through the real binary with and without --stub: accept/reject must agree; for accepted pairs the stub must carry the gontainerstub build constraint, build with -tags gontainerstub against fixture packages reduced to their type declarations, declare the same package/type/constructor and the same method set with identical signature strings as the normal output (both reflected), and its constructor and every generated method must panic. distinct = distinct input files; non-trivial = accepted pair with at least one getter, or a rejected pair"
+	c.Rule = "seeded configurations (the C01 generator incl. hostile alias tables and 1-4 input files; one third carry an injected defect: missing parameter/service, cycle, scope conflict, grammar or token error), each run through the real binary with and without --stub: accept/reject must agree; for accepted pairs the stub must carry the gontainerstub build constraint, build with -tags gontainerstub against fixture packages reduced to their type declarations, declare the same package/type/constructor and the same method set with identical signature strings as the normal output (both reflected), and its constructor and every generated method must panic; sequences of normal and stub runs over one output path give the same verdicts and files as on fresh paths. distinct = distinct input files; non-trivial = accepted pair with at least one getter, or a rejected pair"
 	c.Assumptions = []string{"-tags gontainerstub removes every value, constructor and function of the fixture packages (funcs.go files are tagged !gontainerstub), so a stub referencing one does not build", "reflect's signature strings"}
 	lab, err := probe.NewLab(c.W)
 	if err != nil {
@@ -167,5 +171,50 @@ func checkC17(c *Ctx) error {
 			}
 		}
 	}
+	// what is already at the output path (nothing, the normal file, the stub) is no input: in every
+	// sequence of runs over ONE path both modes give the verdict they give on a fresh path, and write the file they write there
+	w := c.W
+	seq := c.Pick(20, 300)
+	Par(seq, 16, func(k int) {
+		i := k * 2 * 7 % len(units)
+		i -= i % 2
+		nu := units[i]
+		if !nu.Accepted || len(nu.Files) == 0 {
+			return
+		}
+		dir := w.TempDir("c17q")
+		var pats []string
+		for _, f := range nu.Files {
+			_ = work.WriteFile(filepath.Join(dir, f.Name), []byte(f.Content))
+			pats = append(pats, "-i", f.Name)
+		}
+		run := func(out string, stub bool) (int, string) {
+			args := append(append([]string{"build"}, pats...), "-o", out)
+			if stub {
+				args = append(args, "--stub")
+			}
+			r := cli.Do(w, "", nil, dir, filepath.Join(dir, out), args...)
+			b, _ := os.ReadFile(filepath.Join(dir, out))
+			return r.Res.Exit, string(b)
+		}
+		eN, fN := run("fresh-normal.go", false)
+		eS, fS := run("fresh-stub.go", true)
+		if eN != 0 || eS != 0 {
+			return
+		}
+		steps := []bool{false, true, true, false, true, false, false}
+		for si, stub := range steps {
+			e, f := run("same.go", stub)
+			want := fN
+			if stub {
+				want = fS
+			}
+			c.Add("runs_over_a_path_that_holds_an_earlier_output", 1)
+			if e != 0 || f != want {
+				c.Violate(fmt.Sprintf("earlier-output-at-the-path-changes-the-run:stub=%v", stub), fmt.Sprintf("unit %s: step %d of the sequence normal,stub,stub,normal,stub,normal,normal over one -o path (stub=%v): exit %d, file equal to the one written to a fresh path: %v", nu.ID, si, stub, e, f == want), unitFiles(nu))
+				return
+			}
+		}
+	})
 	return nil
 }
